@@ -278,9 +278,22 @@ def corruptions(rng, doc, root_b64, sec):
     rk = new_key(rng)
     out.append(("wrong-root", copy.deepcopy(doc), b64der(make_cert(rng, "SGX Root CA", "SGX Root CA", rk, rk)),
                 NOW))
+    # a complete chain under a foreign root which ships that root as an element named like the
+    # root of trust: the trust anchor is what the caller supplies, never what the file contains
+    fdoc, froot_b64, _ = genuine(rng, depth=3 if any(e["name"] == "platform_ca" for e in doc["elements"]) else 2)
+    fdoc["elements"].append({"name": "sgx_root", "type": "x509_pem", "message": froot_b64,
+                             "signed_by": "sgx_root"})
+    out.append(("foreign-chain-ships-root", fdoc, root_b64, NOW))
     # time: before / after validity
     out.append(("clock-too-early", copy.deepcopy(doc), root_b64, NOW - datetime.timedelta(days=400)))
     out.append(("clock-too-late", copy.deepcopy(doc), root_b64, NOW + datetime.timedelta(days=4000)))
+    # ... by less than any time-zone offset (the check must be made in UTC whatever the host's zone)
+    out.append(("clock-just-early", copy.deepcopy(doc), root_b64,
+                NOW - datetime.timedelta(days=30, hours=2)))
+    out.append(("clock-just-late", copy.deepcopy(doc), root_b64,
+                NOW + datetime.timedelta(days=365, hours=2)))
+    out.append(("clock-just-inside", copy.deepcopy(doc), root_b64,
+                NOW + datetime.timedelta(days=364, hours=22)))
     # key given in other encodings (still the same point)
     d = copy.deepcopy(doc)
     el(d, "attestation")["key"] = el(d, "attestation")["key"][2:]          # raw x||y
